@@ -8,6 +8,14 @@
  *       white box: fn = lm | hm | lu | hl : lowest_mapped / highest_mapped / lowest_unmapped /
  *       highest_linear of step.c on a page-table method over the case's memory
  *       output: "<status> <addr>[ <as>:<base>]"
+ *   os <token>...          public API: addrxlat_sys_os_init for arch=x86_64 on a synthesised image
+ *       os=<l|x|n> ver=<v> pb=<phys_base> root=<as>:<addr> vb=<virt_bits> xx=<xen_xlat>   options ("-" = unset)
+ *       S:<sym>=<val> | S:<sym>!<st>   R:<reg>=..   N:<num>=..    callbacks (absent name: NODATA)
+ *       caps=<mask: 1 kphys, 2 machphys, 4 kv>  bo=<byte order>  rp=<hint for the spec, ignored here>
+ *       Q:<kvaddr>  P:<kphysaddr>      queries      <cell>...  memory
+ *       output: "<status>" + dump + per query
+ *         " q<addr>=<kv st>[:<kphys>]/<hw st>[:<kphys>]"  through MAP_KV_PHYS / MAP_HW (+ conversion to KPHYSADDR)
+ *         " p<addr>=<st>[:<kvaddr>]/<st>[:<kphys>]"       through MAP_KPHYS_DIRECT and back through MAP_KV_PHYS
  *   cell = <as>:<addr>=<value> | <as>:<addr>!<status> | <as>:<addr>~<len> (zero-filled region)
  *
  * Dump: "M<i>=<endoff>:<meth>,...;" for every non-NULL map ("M<i>=-;" when NULL),
@@ -24,7 +32,7 @@ static long long sx(const char *s)
 }
 
 /* ---- sparse memory served by the read callback ---- */
-#define MAXCELLS 4096
+#define MAXCELLS 60000
 struct cell { int as; uint64_t addr; int kind; long long st; uint64_t val; uint64_t len; unsigned char buf[16]; };
 static struct cell cells[MAXCELLS];
 static int ncells;
@@ -165,6 +173,145 @@ static void do_scan(char **tok, int n)
 	addrxlat_ctx_decref(ctx);
 }
 
+/* ---- os ---- */
+struct named { char kind; const char *name; int err; long long st; uint64_t val; };
+static struct named names[64];
+static int nnames;
+
+static addrxlat_status lookup_cb(const addrxlat_cb_t *cb, char kind, const char *name, addrxlat_addr_t *val)
+{
+	addrxlat_ctx_t *ctx = cb->priv;
+	int i;
+	for (i = 0; i < nnames; ++i)
+		if (names[i].kind == kind && !strcmp(names[i].name, name)) {
+			if (names[i].err)
+				return addrxlat_ctx_err(ctx, (addrxlat_status)names[i].st, "Injected failure");
+			*val = names[i].val;
+			return ADDRXLAT_OK;
+		}
+	return addrxlat_ctx_err(ctx, ADDRXLAT_ERR_NODATA, "No such name: %s", name);
+}
+static addrxlat_status sym_cb(const addrxlat_cb_t *cb, const char *name, addrxlat_addr_t *val)
+{ return lookup_cb(cb, 'S', name, val); }
+static addrxlat_status reg_cb(const addrxlat_cb_t *cb, const char *name, addrxlat_addr_t *val)
+{ return lookup_cb(cb, 'R', name, val); }
+static addrxlat_status num_cb(const addrxlat_cb_t *cb, const char *name, addrxlat_addr_t *val)
+{ return lookup_cb(cb, 'N', name, val); }
+
+static void dump_sys(const addrxlat_sys_t *sys);
+
+/* translate through one map by hand, then convert to the target space */
+static void xlat_via(addrxlat_ctx_t *ctx, addrxlat_sys_t *sys, addrxlat_sys_map_t mapidx,
+		     addrxlat_addrspace_t target, uint64_t addr, int *pst, uint64_t *pres)
+{
+	addrxlat_map_t *map = addrxlat_sys_get_map(sys, mapidx);
+	addrxlat_sys_meth_t mi;
+	addrxlat_step_t step;
+	addrxlat_status st;
+
+	*pres = addr;
+	if (!map) { *pst = ADDRXLAT_ERR_NOMETH; return; }
+	mi = addrxlat_map_search(map, addr);
+	if (mi < 0) { *pst = ADDRXLAT_ERR_NOMETH; return; }
+	memset(&step, 0, sizeof step);
+	step.ctx = ctx; step.sys = sys; step.meth = addrxlat_sys_get_meth(sys, mi);
+	step.base.as = ADDRXLAT_NOADDR; step.base.addr = addr;
+	st = addrxlat_walk(&step);
+	if (st == ADDRXLAT_OK)
+		st = addrxlat_fulladdr_conv(&step.base, target, ctx, sys);
+	*pst = (int)st;
+	if (st == ADDRXLAT_OK) *pres = step.base.addr;
+}
+
+static void do_os(char **tok, int n)
+{
+	addrxlat_ctx_t *ctx;
+	addrxlat_cb_t *cb;
+	addrxlat_sys_t *sys;
+	addrxlat_opt_t opts[8];
+	addrxlat_fulladdr_t root;
+	unsigned optc = 0;
+	static char *celltok[MAXCELLS];
+	static char *qtok[512];
+	int ncelltok = 0, nq = 0, i;
+	addrxlat_status st;
+
+	nnames = 0; caps_mask = 0; byte_order = 1; ptewidth = 8;
+	addrxlat_opt_arch(&opts[optc++], "x86_64");
+	for (i = 0; i < n; ++i) {
+		char *t = tok[i];
+		if (!strncmp(t, "os=", 3)) {
+			if (t[3] == 'l') addrxlat_opt_os_type(&opts[optc++], "linux");
+			else if (t[3] == 'x') addrxlat_opt_os_type(&opts[optc++], "xen");
+		} else if (!strncmp(t, "ver=", 4)) {
+			if (t[4] != '-') addrxlat_opt_version_code(&opts[optc++], hx(t + 4));
+		} else if (!strncmp(t, "pb=", 3)) {
+			if (t[3] != '-') addrxlat_opt_phys_base(&opts[optc++], hx(t + 3));
+		} else if (!strncmp(t, "vb=", 3)) {
+			if (t[3] != '-') addrxlat_opt_virt_bits(&opts[optc++], hx(t + 3));
+		} else if (!strncmp(t, "xx=", 3)) {
+			if (t[3] != '-') addrxlat_opt_xen_xlat(&opts[optc++], hx(t + 3));
+		} else if (!strncmp(t, "root=", 5)) {
+			if (t[5] != '-') {
+				char *c = strchr(t + 5, ':');
+				*c = 0;
+				root.as = (addrxlat_addrspace_t)sx(t + 5); root.addr = hx(c + 1);
+				addrxlat_opt_rootpgt(&opts[optc++], &root);
+			}
+		} else if (!strncmp(t, "caps=", 5)) {
+			unsigned long m = hx(t + 5);
+			caps_mask = ((m & 1) ? ADDRXLAT_CAPS(ADDRXLAT_KPHYSADDR) : 0) |
+				((m & 2) ? ADDRXLAT_CAPS(ADDRXLAT_MACHPHYSADDR) : 0) |
+				((m & 4) ? ADDRXLAT_CAPS(ADDRXLAT_KVADDR) : 0);
+		} else if (!strncmp(t, "bo=", 3)) byte_order = (int)hx(t + 3);
+		else if (!strncmp(t, "rp=", 3) || !strncmp(t, "nf=", 3) || !strncmp(t, "dm=", 3)) ;
+		else if ((t[0] == 'S' || t[0] == 'R' || t[0] == 'N') && t[1] == ':' && nnames < 64) {
+			char *e;
+			names[nnames].kind = t[0]; names[nnames].name = t + 2;
+			if ((e = strchr(t + 2, '='))) { *e++ = 0; names[nnames].err = 0; names[nnames].val = hx(e); }
+			else if ((e = strchr(t + 2, '!'))) { *e++ = 0; names[nnames].err = 1; names[nnames].st = sx(e); }
+			else continue;
+			++nnames;
+		} else if ((t[0] == 'Q' || t[0] == 'P') && t[1] == ':') {
+			if (nq < 512) qtok[nq++] = t;
+		} else if (ncelltok < MAXCELLS)
+			celltok[ncelltok++] = t;
+	}
+	if (parse_cells(celltok, ncelltok)) { puts("BADCASE"); return; }
+	ctx = addrxlat_ctx_new();
+	cb = addrxlat_ctx_add_cb(ctx);
+	cb->priv = ctx; cb->get_page = get_page; cb->read_caps = read_caps;
+	cb->sym_value = sym_cb; cb->reg_value = reg_cb; cb->num_value = num_cb;
+	sys = addrxlat_sys_new();
+	st = addrxlat_sys_os_init(sys, ctx, optc, opts);
+	printf("%d", (int)st);
+	dump_sys(sys);
+	for (i = 0; i < nq; ++i) {
+		uint64_t a = hx(qtok[i] + 2), r1, r2;
+		int s1, s2;
+		if (qtok[i][0] == 'Q') {
+			xlat_via(ctx, sys, ADDRXLAT_SYS_MAP_KV_PHYS, ADDRXLAT_KPHYSADDR, a, &s1, &r1);
+			xlat_via(ctx, sys, ADDRXLAT_SYS_MAP_HW, ADDRXLAT_KPHYSADDR, a, &s2, &r2);
+			printf(" q%" PRIx64 "=%d", a, s1);
+			if (!s1) printf(":%" PRIx64, r1);
+			printf("/%d", s2);
+			if (!s2) printf(":%" PRIx64, r2);
+		} else {
+			xlat_via(ctx, sys, ADDRXLAT_SYS_MAP_KPHYS_DIRECT, ADDRXLAT_KVADDR, a, &s1, &r1);
+			printf(" p%" PRIx64 "=%d", a, s1);
+			if (!s1) {
+				printf(":%" PRIx64, r1);
+				xlat_via(ctx, sys, ADDRXLAT_SYS_MAP_KV_PHYS, ADDRXLAT_KPHYSADDR, r1, &s2, &r2);
+				printf("/%d", s2);
+				if (!s2) printf(":%" PRIx64, r2);
+			}
+		}
+	}
+	putchar('\n');
+	addrxlat_sys_decref(sys);
+	addrxlat_ctx_decref(ctx);
+}
+
 static void dump_sys(const addrxlat_sys_t *sys)
 {
 	unsigned i;
@@ -268,6 +415,8 @@ int main(int argc, char **argv)
 			do_lay(tok + 1, n - 1);
 		else if (n >= 2 && !strcmp(tok[0], "scan"))
 			do_scan(tok + 1, n - 1);
+		else if (n >= 2 && !strcmp(tok[0], "os"))
+			do_os(tok + 1, n - 1);
 		else
 			puts("BADCASE");
 	}
